@@ -5,7 +5,7 @@ from props.common import TRUSTED_BASE, ASSUMPTIONS
 
 ID = "C11"
 FORMAT_GROUP = "total"
-LEAN_MODULES = ["LexVerif.Props.C11", "LexVerif.Props.C04Format", "LexVerif.Props.C11Int", "LexVerif.Props.Literals.ParseFloatParse", "LexVerif.Props.Literals.ParseFloatShared", "LexVerif.Props.Literals.ParseIntegerAlgorithm", "LexVerif.Props.Literals.UtilSkip", "LexVerif.Props.Literals.UtilNoskip", "LexVerif.Props.Literals.UtilIterator", "LexVerif.Props.Literals.UtilDigit", "LexVerif.Props.Literals.ParseFloatApi", "LexVerif.Props.Literals.ParseIntegerApi"]
+LEAN_MODULES = ["LexVerif.Props.C11", "LexVerif.Props.C11Sep", "LexVerif.Props.C04Format", "LexVerif.Props.C11Int", "LexVerif.Props.Literals.ParseFloatParse", "LexVerif.Props.Literals.ParseFloatShared", "LexVerif.Props.Literals.ParseIntegerAlgorithm", "LexVerif.Props.Literals.UtilSkip", "LexVerif.Props.Literals.UtilNoskip", "LexVerif.Props.Literals.UtilIterator", "LexVerif.Props.Literals.UtilDigit", "LexVerif.Props.Literals.ParseFloatApi", "LexVerif.Props.Literals.ParseIntegerApi"]
 GEN = ["literals"]
 TRUSTED = TRUSTED_BASE + [
     "the two relations are checked on the IMPLEMENTATION's results (second stage: the complete parser is re-run on the prefix "
@@ -42,9 +42,29 @@ LEVEL_TEXT = ("Props/C11.lean (float syntax model, every feature set): complete_
               "digits not required ('NaN' -> (0.0,0), '-inf' -> (-0.0,1), '-+'), radix >= 19 where letters of inf/NaN are digits "
               "('inf' radix 20, 'infinity' radix 30, 'nan^' radix 24), sep_i_hexfloat_prefix '1p1_a'. Props/C11Int.lean (integer "
               "model, complete): int_complete_iff_partial holds with no exclusion; int_partial_prefix holds iff a digit was consumed "
-              "(int_partial_prefix_iff), witness '+a' -> (0,1) vs '+' -> Empty(1). Formats WITH a separator flag on integer, fraction or "
-              "exponent (and special results of formats with a separator byte): partial_prefix is not proved (only the "
-              "counter-example class is exhibited).")
+              "(int_partial_prefix_iff), witness '+a' -> (0,1) vs '+' -> Empty(1). Formats WITH separator flags on integer, fraction or "
+              "exponent (Props/C11Sep.lean): partial_prefix_sep (number AND special-value results; _number, _special, _model, "
+              "_model_number, partial_prefix_sep_full_partial) proves the prefix relation for EVERY combination of the 14 "
+              "separator predicates (or none) on the three digit components - including I+T+C and I+L+C, whose known defects "
+              "accept more but consistently before and after the cut - in the release build, base prefix and suffix allowed, "
+              "mantissa digits required, punctuation not colliding with the separator (SepCfg; derived from "
+              "format.is_valid + valid options + is_valid_options_punctuation by sepCfg_of_valid, plus: the separator is not the "
+              "other ASCII case of the exponent / prefix / suffix character). Key lemma peek_trunc: a cut at the returned count changes "
+              "the look-ahead of a skip decision only from `some x` to end of input, all predicates are monotone for that change "
+              "(holds_weaken) unless they ask for a digit after the separator (i, il, ic, ilc@first), and that digit is then "
+              "consumed by the digit loop - EXCEPT in the exponent when mantissa_radix > exponent_radix: the exact exclusion "
+              "`digit-seeking exponent predicate => mantissa_radix <= exponent_radix` (ExpRadixOK, number results only), shown exact by "
+              "witness_sep_hex_i/_il/_ic ('1p1_a' -> (2.0,4), '1p1_' -> InvalidDigit; reproduced on the implementation: the open "
+              "finding 'exponent is_digit uses the mantissa radix'). The count may stand after trailing separators a peek skipped "
+              "('1__2__x' -> 6 with I+L+T+C); the many-digits re-parse is covered (ZerosMirror: skip_zeros repeats the peek "
+              "decisions of the first pass while the digits are zeros). Special values: the special iterator is no-skip or skips "
+              "every separator run, parse_positive_special commutes with every cut at or behind its match for EVERY format "
+              "(parsePositiveSpecial_prefix), and the number parser fails on the cut buffer as on the whole one when no byte "
+              "matching a special head is a mantissa digit / the decimal point (SpecialHeadsOK, necessary) / the separator "
+              "('-_n_a__n__x' -> (NaN, 9) with special_digit_separator). Open (partial_prefix_sep_full): a separator that is the "
+              "other ASCII case of the exponent, prefix or suffix character or one "
+              "of I i N n (exhaustive model search to length 5-6 over all uniform decimal/hex separator formats, also with a "
+              "base prefix, found no violation besides the radix one).")
 LEVEL_NOTE = ("Trusted: Lean kernel; rustc; that the models mirror the Rust control flow (correspondence only). The integer parser with the "
               "`format` feature (prefix/suffix/separators/leading-zero flags) is modelled by Model.ParseIntFormat; Props/C04Format.lean "
               "int_format_complete_iff_partial proves clause 1 for EVERY valid format (lockstep of the two runs, Proof/ParseIntFormatAgree.lean); "
